@@ -8,6 +8,7 @@ cfg keys
                'l'  add_dependency(i, lit); add_dependency(lit, j)
                'la' add_dependency(i, lit); lit is a positional argument of j
                'll' dependency routed through a chain of two adjacent literals
+               'lr' as 'l', but declared downstream-first: add_dependency(lit, j) BEFORE add_dependency(i, lit)
                'lla' chain of two literals that both survive pruning: the second is a positional argument of j,
                     the first is an argument of an auxiliary call that is part of the (list) output
   hub        optional (preds, succs, as_arg): ONE literal shared by several
@@ -74,7 +75,7 @@ class PlanHarness(e1.Harness):
         for j in range(n):
             f = self._make_fn(j)
             self.fns.append(f)
-            args, kwargs, deps = [], {}, []
+            args, kwargs, deps, late = [], {}, [], []
             for (i, jj, kind) in edges:
                 if jj != j:
                     continue
@@ -93,6 +94,10 @@ class PlanHarness(e1.Harness):
                     lit = plan.lit(f"L{i}{j}")
                     plan.add_dependency(self.calls[i], lit)
                     args.append(lit)
+                if kind == "lr":
+                    lit = plan.lit(f"L{i}{j}")
+                    deps.append(lit)
+                    late.append((self.calls[i], lit))
                 if kind == "lla":
                     l1, l2 = plan.lit(f"La{i}{j}"), plan.lit(f"Lb{i}{j}")
                     plan.add_dependency(self.calls[i], l1)
@@ -123,6 +128,8 @@ class PlanHarness(e1.Harness):
                 c = plan.call(f, *args, **kwargs)
             for d in deps:
                 plan.add_dependency(d, c)
+            for src, lit in late:
+                plan.add_dependency(src, lit)
             self.calls.append(c)
             if hub and j in hub[0]:
                 plan.add_dependency(c, hub_lit)
